@@ -67,6 +67,12 @@ func newSocket(s *unixsocket.Socket) *socket {
 func (s *socket) RecvMsg(e any) (msg unixsocket.Msg, err error) {
 	n, msg, err := s.Socket.RecvMsg(s.buff)
 	if err != nil {
+		if n > 0 {
+			// the message is dropped but its data arrived whole: the gob stream is
+			// stateful, type descriptors in this packet must still reach the decoder
+			s.recvBuff.Rotate(bytes.NewBuffer(s.buff[:n]))
+			s.decoder.Decode(e)
+		}
 		return msg, fmt.Errorf("recv msg: %w", err)
 	}
 	s.recvBuff.Rotate(bytes.NewBuffer(s.buff[:n]))
